@@ -31,7 +31,11 @@
 (* A based-on reference / queried id is a style id, NONE, GHOST or an      *)
 (* ALIAS of a style id: a string that is not a style id but resembles one  *)
 (* (the display name of that style, its id in other letter case, its id    *)
-(* with a blank added).  An alias is as undefined as GHOST.                *)
+(* with a blank added, the label the library's tables of predefined styles *)
+(* give that id).  An alias is as undefined as GHOST.                      *)
+(* A registry may also come from a styles part (XML) through one of the    *)
+(* library's loaders (LoadXML): what C14 says holds for it like for any    *)
+(* registry; whether a loader accepts its input is not C14's business.     *)
 (***************************************************************************)
 EXTENDS Integers, Sequences, FiniteSets, TLC
 
@@ -41,7 +45,7 @@ Slots == {"x", "y"}
 
 \* ---- references that resemble a registered style but are not its id ----------
 AllIds     == {"s1", "s2", "s3", "s4", "s5"}
-AliasKinds == {"name", "case", "space"}
+AliasKinds == {"name", "case", "space", "label"}
 Alias(k, i) == k \o ":" \o i
 AliasesOf(kinds, ids) == {Alias(k, i) : k \in kinds, i \in ids}
 KindOf(b) == IF \E k \in AliasKinds, i \in AllIds : b = Alias(k, i)
@@ -68,6 +72,12 @@ RECURSIVE PutAll(_, _, _)
 PutAll(reg, defs, i) ==
   IF i > Len(defs) THEN reg
   ELSE PutAll(Put(reg, defs[i].s, Def(defs[i].b, defs[i].x, defs[i].y)), defs, i + 1)
+
+\* definitions added to what is registered already: a style that exists is kept (MergeStylesFromXML)
+RECURSIVE MergeAll(_, _, _)
+MergeAll(reg, defs, i) ==
+  IF i > Len(defs) THEN reg
+  ELSE MergeAll(IF defs[i].s \in DOMAIN reg THEN reg ELSE Put(reg, defs[i].s, Def(defs[i].b, defs[i].x, defs[i].y)), defs, i + 1)
 
 InitSt == [reg |-> EmptyReg, cl |-> EmptyReg, has |-> FALSE]
 
@@ -117,13 +127,14 @@ From(reg, id, o) ==
   ELSE IF o = reg[id].b THEN "parent" ELSE "ancestor"
 
 \* ---- operations ---------------------------------------------------------------
-Mutators  == {"AddStyle", "RemoveStyle", "Create", "Load", "Edit"}
+Mutators  == {"AddStyle", "RemoveStyle", "Create", "Load", "LoadXML", "Edit"}
+XmlHows   == {"parse", "merge", "doc"}   \* ParseStylesFromXML / MergeStylesFromXML / LoadStylesFromDocument
 Resolvers == {"Resolve", "ToXML", "MutRes"}       \* walk the basedOn chain
 Readers   == Resolvers \cup {"Info", "List", "Peek", "CloneDrop"}  \* must leave the registry as it is
 CloneOps  == {"CloneSwap", "CloneDrop"}           \* compound: copy, look at the copy, overwrite one side, look again
 PairOps   == {"Clone", "OnClone"}                 \* the copy as a second live registry
 \* what may be addressed to the copy
-InnerOps  == (Mutators \ {"Load"}) \cup Resolvers \cup {"Info", "List", "Peek"}
+InnerOps  == (Mutators \ {"Load", "LoadXML"}) \cup Resolvers \cup {"Info", "List", "Peek"}
 OpNamesAll == Mutators \cup Readers \cup CloneOps \cup PairOps
 
 \* the library call an operation stands for (used in signatures)
@@ -139,6 +150,8 @@ Api(op) ==
     [] op.op = "Peek"    -> "GetStyle/StyleExists/GetAllStyles"
     [] op.op = "CloneSwap" -> "Clone"
     [] op.op = "CloneDrop" -> "Clone"
+    [] op.op = "LoadXML" -> (CASE op.how = "parse" -> "ParseStylesFromXML" [] op.how = "merge" -> "MergeStylesFromXML"
+                               [] OTHER -> "LoadStylesFromDocument")
     [] op.op = "OnClone" -> "Clone+" \o Api(op.o)
     [] OTHER -> op.op
 
@@ -148,6 +161,9 @@ ApplyReg(reg, op) ==
     [] op.op = "RemoveStyle" -> Del(reg, op.s)
     [] op.op = "Create"      -> Put(reg, op.s, Def(op.b, FALSE, FALSE))
     [] op.op = "Load"        -> PutAll(EmptyReg, op.defs, 1)
+    \* a loader that accepts the styles part: the registry is (parse, doc) / is extended by (merge) what the part defines
+    \* (doc may register predefined styles of the library on top: other ids than the behaviour's)
+    [] op.op = "LoadXML"     -> IF op.how = "merge" THEN MergeAll(reg, op.defs, 1) ELSE PutAll(EmptyReg, op.defs, 1)
     \* the registered object itself (the pointer GetStyle / CreateCustomStyle hand out) is edited in place:
     \* elements are added to the style (x, y) and its basedOn is re-pointed (b) or kept (b = "keep")
     [] op.op = "Edit"        -> IF op.s \notin DOMAIN reg THEN reg
